@@ -683,10 +683,12 @@ func (v *Protocol) readBasicHeader() (format formatType, cid chunkID, err error)
 	if err = binary.Read(v.r, binary.BigEndian, &t); err != nil {
 		return format, cid, oe.Wrapf(err, "read basic header for cid=%v", cid)
 	}
+	// The first byte, 0 for 2B and 1 for 3B chunk header.
+	first := cid
 	cid = chunkID(64 + uint32(t))
 
 	// 64-65599, 3B chunk header
-	if cid == 1 {
+	if first == 1 {
 		if err = binary.Read(v.r, binary.BigEndian, &t); err != nil {
 			return format, cid, oe.Wrapf(err, "read basic header for cid=%v", cid)
 		}
